@@ -4,6 +4,7 @@ CONSTANTS Node = {"A", "B", "C"}
           MaxWire = 12
           Senders = {"A", "B"}
           Guided = TRUE
+          Spoof = TRUE
           Depth = 30
 INVARIANTS Authentic CurrentSession ResponderKeys KeysPrivate ChallengeOwn
 CONSTRAINT Emit
